@@ -149,6 +149,19 @@ Theorem C13_open2n2_remove_short_hash_multiset :
     BucketFrame.O2F.wsum w (BucketOps.O2.sh b') = BucketFrame.O2F.wsum w (BucketOps.O2.sh b) - w (BucketOps.O2.sh b idx).
 Proof. exact BucketFrame.O2F.rem_wsum. Qed.
 Print Assumptions C13_open2n2_remove_short_hash_multiset.
+(* ... and for every maxCount in 1..3, summing over the slots below maxCount. *)
+Theorem C13_open2n2_addcrt_short_hash_multiset_all_maxcount :
+  forall mc, 1 <= mc <= 3 -> forall w hc lbc pr ni b, BucketOps.O2.good mc b -> 0 <= BucketOps.O2.cnt b < mc -> w 128 = 0 ->
+    BucketFrame.O2F.wsumN mc w (BucketOps.O2.sh (BucketOps.O2.addP mc (hc, lbc, pr, ni) b)) =
+    BucketFrame.O2F.wsumN mc w (BucketOps.O2.sh b) + w (Gen_Open2N2_ops.pvCalcShortHash (wrapU 64 hc)).
+Proof. exact BucketFrame.O2F.add_wsumN. Qed.
+Print Assumptions C13_open2n2_addcrt_short_hash_multiset_all_maxcount.
+Theorem C13_open2n2_remove_short_hash_multiset_all_maxcount :
+  forall mc, 1 <= mc <= 3 -> forall w idx x1 x2 x3 b b', BucketOps.O2.good mc b -> 0 < BucketOps.O2.cnt b <= mc -> w 128 = 0 ->
+    BucketOps.O2.remP mc (idx, x1, x2, x3) b = Some b' ->
+    BucketFrame.O2F.wsumN mc w (BucketOps.O2.sh b') = BucketFrame.O2F.wsumN mc w (BucketOps.O2.sh b) - w (BucketOps.O2.sh b idx).
+Proof. exact BucketFrame.O2F.rem_wsumN. Qed.
+Print Assumptions C13_open2n2_remove_short_hash_multiset_all_maxcount.
 (* OpenN1<maxCount, reverse> / Open8: the state byte shares the slot of the LAST item, so the frame is stated over item
    numbers (item i lives at pos i): AddCrt writes the new short hash at pos count and keeps items 0..count-1; Remove moves
    the short hash of the last item into the vacated position and keeps every other surviving item; bytes outside
